@@ -82,7 +82,7 @@ def replay_one(ctx):
     rep = core.Report(ctx, "model_checking")
     try:
         tr, info = TR.run_trainer(sg, cfgd["E"], cfgd["NB"], cfgd["NV"], cfgd.get("NT", 1), cfgd.get("evaluator", False), cfgd.get("callbacks", False), cfgd.get("seed", 1),
-                                  do_fit=cfgd.get("do_fit", True), ambient=cfgd.get("ambient"), loader_kind=cfgd.get("loader_kind", "list"))
+                                  do_fit=cfgd.get("do_fit", True), ambient=cfgd.get("ambient"), loader_kind=cfgd.get("loader_kind", "list"), fits=cfgd.get("fits", 1))
     except Exception as e:  # noqa: BLE001
         print("DIVERGENCE fit raised", type(e).__name__, e)
         print("VIOLATION property=%s replay=%s" % (ctx.pid, ctx.replay))
@@ -157,6 +157,18 @@ def run(ctx):
             rep.case("run:%s" % ((amb, E, NB, NV, do_fit),))
             rep.violation("fit-raised:%s:ambient=%s" % (type(e).__name__, amb), "Trainer (E=%d, NB=%d, NV=%d, %s) raised %s: %s" % (E, NB, NV, amb, type(e).__name__, str(e)[:200]),
                           dict(E=E, NB=NB, NV=NV, NT=1 + (seed % 2), evaluator=False, callbacks=False, seed=seed, ambient=amb, do_fit=do_fit))
+            continue
+        traces.append(tr)
+        infos.append(info)
+    # the same Trainer fitted twice (a second training stage): the second history has one entry per epoch of the second fit
+    for E, NB, NV, ev_on in ((2, 2, 1, True), (1, 3, 0, False), (2, 1, 2, "custom")):
+        seed += 1
+        try:
+            tr, info = TR.run_trainer(sg, E, NB, NV, 1, ev_on, False, seed, fits=2)
+        except Exception as e:  # noqa: BLE001
+            rep.case("run:%s" % (("two-fits", E, NB, NV),))
+            rep.violation("fit-raised:%s:two-fits" % type(e).__name__, "Trainer fitted twice (E=%d, NB=%d, NV=%d) raised %s: %s" % (E, NB, NV, type(e).__name__, str(e)[:200]),
+                          dict(E=E, NB=NB, NV=NV, NT=1, evaluator=ev_on, callbacks=False, seed=seed, fits=2))
             continue
         traces.append(tr)
         infos.append(info)
